@@ -858,9 +858,16 @@ func reuseResend(r *rand.Rand, o *hout.Out, fresh bool) {
 	}
 	k := 2 + r.Intn(5)
 	m := fixgen.NewMarketDataRequest()
+	// the same history for the object-identity model of the store (FixModel/StoreAlias.lean): the Logon answer is an
+	// object of its own carrying "body" 999; application object ids: one shared (0) or one per send (i+1)
+	aliasOp := "alias s:1000:999"
+	var aliasAnswers []string
 	for i := 0; i < k; i++ {
 		if fresh {
 			m = fixgen.NewMarketDataRequest()
+			aliasOp += fmt.Sprintf(" s:%d:%d", i+1, i)
+		} else {
+			aliasOp += fmt.Sprintf(" s:0:%d", i)
 		}
 		m.SetMDReqID(fmt.Sprintf("req-%d", i))
 		_ = s.Send(m)
@@ -885,6 +892,17 @@ func reuseResend(r *rand.Rand, o *hout.Out, fresh bool) {
 		}
 		feed(frame(body([]fld{{"35", "2"}, {"49", "PEER"}, {"56", "ME"}, {"34", strconv.Itoa(2 + rq)}, {"52", "20240101-00:00:00.000"}, {"7", strconv.Itoa(from)}, {"16", strconv.Itoa(to)}})))
 		resent := drain()
+		aliasOp += fmt.Sprintf(" r:%d:%d", from, to)
+		var toks []string
+		for _, w := range resent {
+			_, f := render(w)
+			body := "999"
+			if f["35"] != "A" {
+				body = strings.TrimPrefix(f["262"], "req-")
+			}
+			toks = append(toks, f["34"]+":"+body)
+		}
+		aliasAnswers = append(aliasAnswers, strings.Join(toks, ","))
 		desc = fmt.Sprintf("%s: %d application sends, request %d of 3: ResendRequest %d..%d", kind, k, rq+1, from, to)
 		if len(resent) != want-from+1 {
 			var got []string
@@ -910,6 +928,9 @@ func reuseResend(r *rand.Rand, o *hout.Out, fresh bool) {
 		o.Nontrivial("C10", desc)
 	}
 	o.Nontrivial("C10", desc)
+	// model and implementation must agree on what is retransmitted — also when objects are re-used (the model keeps
+	// object identity, so it predicts the latest content then)
+	o.Emit("corr", "C10", aliasOp, strings.Join(aliasAnswers, " | "))
 	o.Count("ev.reuse-resend." + kind)
 	h.Stop()
 }
